@@ -68,6 +68,9 @@ func (e *Explorer) DecideFree(in *Interp, n int, what string) int {
 		e.pos++
 		return d.alts[d.idx]
 	}
+	if n <= 0 {
+		panic(abort("internal", "free choice among 0 alternatives at "+what))
+	}
 	alts := make([]int, n)
 	for i := range alts {
 		alts[i] = i
